@@ -181,6 +181,12 @@ def events():
     ev("ws.close_never_opened", lambda w: not w.connected and not w.ever and not w.service_stopped and not w.init_fail_done,
        ws_close_never)
 
+    def ws_close_failed_reconnect(w):
+        # a reconnection attempt whose WebSocket negotiation fails: onClose() without onOpen(), the service keeps trying
+        w.rc.ws_close(False, 1006, "abnormal")
+    ev("ws.close_failed_reconnect", lambda w: w.ever and not w.connected and not w.service_stopped and not w.init_fail_done,
+       ws_close_failed_reconnect)
+
     def svc_stopped(w):
         w.stopped_done = True
         w.service_stopped = True
